@@ -357,6 +357,10 @@ class Emitter:
         m = re.fullmatch(r'std::__detail::_Node_(const_)?iterator<(.*)>|std::__detail::_Node_iterator_base<(.*)>', q)
         if m:
             return Ty('iter', 'size_t', elem=None, ref=ref, const=const)
+        m = re.fullmatch(r'std::reverse_iterator<(?:__gnu_cxx::)?__normal_iterator<(.*)>>', q)
+        if m:
+            args = split_targs(m.group(1)); cont = self.ty(args[1])
+            return Ty('riter', 'size_t', elem=cont, ref=ref, const=const)
         m = re.fullmatch(r'(__gnu_cxx::)?__normal_iterator<(.*)>', q)
         if m:
             args = split_targs(m.group(2)); cont = self.ty(args[1])
